@@ -2,15 +2,17 @@
 # Build the whole framework from files on disk, offline: full .vo build (no -vos), coqchk over the
 # property files, extraction + runner, harness in both cargo profiles (from /repo's working tree).
 set -e
-cd /verif/coq
+V=$(cd "$(dirname "$0")/.." && pwd)
+mkdir -p $V/build
+cd $V/coq
 coq_makefile -f _CoqProject -o Makefile
 timeout 3000 make -j16
 # independent re-check of the property files and everything they depend on
-timeout 3000 coqchk -o -silent -Q theories VD $(ls theories/Properties/*.v | sed 's#theories/#VD.#; s#/#.#g; s#\.v$##') > /verif/build/coqchk.log 2>&1 || { tail -20 /verif/build/coqchk.log; exit 1; }
-tail -5 /verif/build/coqchk.log
-/verif/tools/build_runner.sh
-cd /verif/harness
-export CARGO_NET_OFFLINE=true RUSTFLAGS="--cfg virtio_drivers_verif" CARGO_TARGET_DIR=/verif/build/target
+timeout 3000 coqchk -o -silent -Q theories VD $(ls theories/Properties/*.v | sed 's#theories/#VD.#; s#/#.#g; s#\.v$##') > $V/build/coqchk.log 2>&1 || { tail -20 $V/build/coqchk.log; exit 1; }
+grep -A1 "Axioms" $V/build/coqchk.log | head -4
+$V/tools/build_runner.sh
+cd $V/harness
+export CARGO_NET_OFFLINE=true RUSTFLAGS="--cfg virtio_drivers_verif" CARGO_TARGET_DIR=$V/build/target
 timeout 3000 cargo build --offline
 timeout 3000 cargo build --offline --release
 echo setup-ok
